@@ -6,7 +6,11 @@
                       association list keyed by (identity, ability);
            registry — the live children of the manager actor, i.e. the child names that are taken in the process
                       registry (vivid ActorOf panics "actor ... already exists" on a taken name);
-           created  — log of the ability-provider invocations; the n-th entry is actor instance n.
+           created  — log of the ability-provider invocations; the n-th entry is actor instance n;
+           dying    — the children that have begun to terminate (vivid status Terminating: OnTerminate handled or being
+                      handled, waiting for their own children, final persistence) and have not finished.  Such a child
+                      is still registered under its name (actor_context.go tryTerminated unregisters it only at the
+                      very end, just before the termination notice is sent to the parent), so its name is still taken.
    A reference is the child's address (its name below the manager); the instance number says WHICH actor is
    behind it.
 
@@ -14,7 +18,15 @@
    (fixes/C13-*.patch): the created reference is stored in members; a name vivid would refuse is answered with an
    error instead of a panic of the manager; terminated children are forgotten; and the child name is derived by
    [nm], a parameter: [dash_name] is the derivation of the unrepaired code (identity-ability), [lp_name] the
-   repaired one (len(identity)-identity-ability).  No proofs here. *)
+   repaired one (len(identity)-identity-ability).
+
+   Termination of a child has TWO phases, as in vivid: [Begin i a] — the child handles its terminate request and is
+   Terminating from then on; the manager is told nothing, its table and the registry are unchanged — and [Stop i a] —
+   the child has unregistered and the manager has handled the OnTerminated notice (a [Stop] without a [Begin] before it
+   is the whole termination in one step).  Between the two, a lookup of the pair finds the entry and is answered with
+   the old reference; nothing is created.  [begin_releasing] is what a manager that forgot the pair already at [Begin]
+   would do (the name is still taken: the next lookup of the pair is a panic of the manager); it is not part of the
+   machine and only serves the witness in Properties.v.  No proofs here. *)
 From Coq Require Import String Ascii DecimalString.
 From MV Require Import Lib.ListX.
 Open Scope string_scope.
@@ -25,17 +37,20 @@ Record child := mkchild { cname : string; cinst : nat }.
 
 Inductive op :=
 | Lookup (i a : string)       (* the request cm.ActorOf{Identity, Ability} *)
-| Stop (i a : string).        (* the actor currently registered for the pair terminates *)
+| Begin (i a : string)        (* the actor currently registered for the pair begins to terminate (Terminating) *)
+| Stop (i a : string).        (* the actor currently registered for the pair has terminated and the manager has handled
+                                 the notice (whether or not a Begin came before) *)
 
 Inductive out :=
 | ORef (c : child)
 | OErr                        (* answered with an error *)
 | OCrash                      (* the manager actor panicked: accident, the guard restarts it *)
 | OStop (found : bool)
+| OBegin (found : bool)       (* found = there is a registered, not yet terminating actor for the pair *)
 | OBad.                       (* never produced by the model: timeouts, foreign replies, dead references *)
 
-Record st := { members : list (key * child); registry : list child; created : list key }.
-Definition init : st := {| members := []; registry := []; created := [] |}.
+Record st := { members : list (key * child); registry : list child; created : list key; dying : list child }.
+Definition init : st := {| members := []; registry := []; created := []; dying := [] |}.
 
 Definition key_eqb (k1 k2 : key) : bool := String.eqb (fst k1) (fst k2) && String.eqb (snd k1) (snd k2).
 
@@ -64,7 +79,7 @@ Definition dec (n : nat) : string := NilEmpty.string_of_uint (Nat.to_uint n).   
 Definition lp_name (i a : string) : string := dec (String.length i) ++ String dash (i ++ String dash a).
 
 (* ---- the manager restarted by the guard: all children are terminated, a fresh drill-master instance *)
-Definition crashed (s : st) : st := {| members := []; registry := []; created := created s |}.
+Definition crashed (s : st) : st := {| members := []; registry := []; created := created s; dying := [] |}.
 
 Section Machine.
   Variable nm : string -> string -> string.    (* child name of a pair *)
@@ -81,10 +96,20 @@ Section Machine.
              else
                let c := {| cname := n; cinst := length (created s) |} in
                ({| members := ((i, a), c) :: members s; registry := c :: registry s;
-                   created := created s ++ [(i, a)] |}, ORef c)
+                   created := created s ++ [(i, a)]; dying := dying s |}, ORef c)
          end.
 
-  (* the child of the pair terminates: it leaves the registry, then the manager handles OnTerminated and deletes
+  (* the child of the pair begins to terminate: nothing the manager can see changes.  A second terminate request to a
+     child that is already terminating is ignored (actor_context.go onTerminate: the status CAS fails). *)
+  Definition begin (s : st) (i a : string) : st * out :=
+    match find_member (i, a) (members s) with
+    | None => (s, OBegin false)
+    | Some c =>
+        if name_taken (cname c) (dying s) then (s, OBegin false)
+        else ({| members := members s; registry := registry s; created := created s; dying := c :: dying s |}, OBegin true)
+    end.
+
+  (* the child of the pair has terminated: it leaves the registry, then the manager handles OnTerminated and deletes
      every entry whose reference is the terminated one *)
   Definition stop (s : st) (i a : string) : st * out :=
     match find_member (i, a) (members s) with
@@ -92,12 +117,14 @@ Section Machine.
     | Some c =>
         ({| members := filter (fun e => negb (String.eqb (cname (snd e)) (cname c))) (members s);
             registry := filter (fun c' => negb (String.eqb (cname c') (cname c))) (registry s);
-            created := created s |}, OStop true)
+            created := created s;
+            dying := filter (fun c' => negb (String.eqb (cname c') (cname c))) (dying s) |}, OStop true)
     end.
 
   Definition step (s : st) (o : op) : st * out :=
     match o with
     | Lookup i a => lookup s i a
+    | Begin i a => begin s i a
     | Stop i a => stop s i a
     end.
 
@@ -112,6 +139,15 @@ Section Machine.
   Definition trace (ops : list op) : list (op * out) := combine ops (outs ops).
 End Machine.
 
+(* ---- NOT the machine: a manager that forgets the pair as soon as its actor BEGINS to terminate (the entry leaves the
+        table while the child is still registered under its name) *)
+Definition begin_releasing (s : st) (i a : string) : st :=
+  match find_member (i, a) (members s) with
+  | None => s
+  | Some c => {| members := filter (fun e => negb (String.eqb (cname (snd e)) (cname c))) (members s);
+                 registry := registry s; created := created s; dying := c :: dying s |}
+  end.
+
 (* ---- counting *)
 Definition count_created (k : key) (s : st) : nat := length (filter (key_eqb k) (created s)).
 Definition is_stop_of (k : key) (o : op) : bool :=
@@ -119,7 +155,7 @@ Definition is_stop_of (k : key) (o : op) : bool :=
 Definition count_stops (k : key) (ops : list op) : nat := length (filter (is_stop_of k) ops).
 
 (* identities of the requests of a history satisfy P *)
-Definition op_identity (o : op) : string := match o with Lookup i _ => i | Stop i _ => i end.
+Definition op_identity (o : op) : string := match o with Lookup i _ => i | Begin i _ => i | Stop i _ => i end.
 Fixpoint has_dash (s : string) : bool :=
   match s with EmptyString => false | String c t => Ascii.eqb c dash || has_dash t end.
 
